@@ -7,7 +7,10 @@ positive under surface convergence; `Forcing.compute_w` / `Forcing.W` / `Forcing
 files (sub-grids, land, anisotropic cells, start on / between frames, updates across frames) and on the
 shipped chemicals forcing file; start offsets of 2.. steps into intervals of up to 60 steps (float64 / float32 / packed
 currents, several files), Forcing.W and wvel over the update history against the time interpolation of the frames'
-vertical velocities and, on flat files, against the transport-divergence form."""
+vertical velocities and, on flat files, against the transport-divergence form; every compute_w oracle and the
+Forcing oracles again with the grid brought to other total depths (millimetres .. kilometres, in particular below and around one
+metre) and other cell sizes (unit, centimetres .. tens of kilometres), the vertical grid of the files given through either
+Vtransform or through Vinfo."""
 import importlib, os, tempfile, shutil
 import numpy as np
 from .common import Driver, F, I, unF, same_bits
@@ -28,7 +31,17 @@ RULE = ("grids J,I in 4..7, K in 3..6 (one in eight: J,I in 8..12, K in 7..12; a
         "files (list or glob, grid in the first); update schedules dense from step 0 to past the next frame, then gapped, to the last "
         "frame.  The shipped file also with the start 0..59 steps after its first frame (always 2 and 59, random others), whole grid "
         "or sub-grid, steps 0..3, around both later frames and random ones.  Non-trivial: every grid/field pair and every (file, "
-        "schedule) pair.")
+        "schedule) pair.  Scale of the grid (second family of compute_w cases, as many again, same styles and oracles, model included on the "
+        "small grids): the levels multiplied by a factor so that the water columns' total thickness is of laboratory / non-dimensional "
+        "scale (1e-4..2e-2), below one metre everywhere (0.02..0.99), exactly 1 in the deepest column, on either side of one metre "
+        "(a random column at 0.6..1.6: over rough beds and varying layers some columns below and some above 1 m), 1..20 m, or "
+        "1000..11000 m; the second frame of the two-frame call in a depth class of its own; pm, pn as generated, all 1 (unit cells), or "
+        "divided by a factor giving cells of 3 mm..0.8 m, 0.3..24 m, or 1.6..48 km.  Forcing, third family of synthetic files "
+        "(either start / schedule family): h flat at 1e-3..5e-2, 0.05..0.99, exactly 1, 1..10 or 500..5000 m, or the rough h scaled to "
+        "0.01..0.99 m everywhere, to both sides of 1 m (0.2..4.5 m), or to 100..5000 m; vertical grid from hc, Cs_r, Cs_w in the file "
+        "with Vtransform absent / 1 (hc in [0, min h]) or 2 (hc in [0, 4 min h]), or from the configuration's Vinfo (theta_s 0.5..7, "
+        "theta_b, Vstretching 1 | 2 | 4, Vtransform 1 | 2); pm, pn as written, all 1, or scaled to cells of 7 mm..0.9 m, 1..22 m, "
+        "4..54 km; levels checked monotone (z_w[k] < z_r[k] < z_w[k+1]) before use.")
 ASSUMPTIONS = ["linearity / identities compared with 1e-9 relative tolerance to the field scale; model vs implementation bit-exact",
                "Forcing.W against compute_w of the served currents: 1e-9 relative on float64 files (accumulated increments vs the closed "
                "form, equal by linearity), 1e-5 relative on the shipped file (float32 currents accumulate one float32 rounding per step)",
